@@ -75,24 +75,20 @@ theorem serviceReps_framed (s : Server) (h : FramedInv s) : FramedInv s.serviceR
 theorem step_framed (app : Req → AppResp) (y : Sys) (w : Who) (h : FramedInv y.s) : FramedInv (step app y w).s := by
   cases w with
   | client =>
-    simp only [step, stepClient]
+    simp only [step, stepClient, connect]
     split <;> exact ⟨h.1, fun r hr hh => by simpa using h.2 r (by simpa using hr) hh⟩
   | server =>
     simp only [step, stepServer]
-    have h1 : FramedInv (if y.s.pending then { y.s with pending := false, accepted := true, parsing := true } else y.s) := by
+    have h1 : FramedInv y.s.accept := by
+      unfold Server.accept
       split
       · exact ⟨h.1, fun r hr hh => by simpa using h.2 r (by simpa using hr) hh⟩
       · exact h
-    revert h1
-    generalize (if y.s.pending then _ else y.s) = s1
-    intro h1
-    have h2 : FramedInv (if s1.accepted then ({ s1 with rx := s1.rx ++ y.c2s }, ([] : List Req)) else (s1, y.c2s)).1 := by
+    have h2 : FramedInv (y.s.accept.receive y.c2s).1 := by
+      unfold Server.receive
       split
       · exact ⟨h1.1, fun r hr hh => by simpa using h1.2 r (by simpa using hr) hh⟩
       · exact h1
-    revert h2
-    generalize (if s1.accepted then ({ s1 with rx := s1.rx ++ y.c2s }, ([] : List Req)) else (s1, y.c2s)) = p2
-    intro h2
     have h3 := serviceReps_framed _ (serviceReqs_framed app _ h2)
     exact ⟨h3.1, fun r hr hh => by simpa using h3.2 r (by simpa using hr) hh⟩
 
@@ -107,5 +103,43 @@ theorem C31_every_response_framed (app : Req → AppResp) (reqs : List Req) (sch
     | nil => intro y h; exact h
     | cons w ws ih => intro y h; exact ih _ (step_framed app y w h)
   exact (this sch (initSys reqs) ⟨by simp [initSys], by simp [initSys]⟩).1
+
+/-! ## responses come back in request order, each matched to its request -/
+
+theorem inv_run (app : Req → AppResp) (reqs : List Req) (hwf : ∀ q ∈ reqs, WFApp (app q)) (sch : List Who) :
+    ∀ y, Inv app reqs y → Inv app reqs (run app y sch) := by
+  induction sch with
+  | nil => intro y h; exact h
+  | cons w ws ih => intro y h; exact ih _ (inv_step app reqs hwf y w h)
+
+/-- **C31, the response stream of one request** (every application that yields at least the Content-Length it
+announces): what the responder queues for a request — head, data, terminator — is parsed by the client, from its
+initial state and however the items are grouped on arrival (`feed_append`), into exactly one response with that
+request's tag and the body the application produced; nothing is left over for the next response. -/
+theorem C31_response_stream_roundtrip (tag : Nat) (a : AppResp) (h : WFApp a) (x y : List Item)
+    (hxy : x ++ y = futureFrom (fresh.start a.cl) tag a.pieces) :
+    (feed none x).andThen y = .done tag (bodyOf a) [] := by
+  rw [← feed_append, hxy]; exact stream_roundtrip tag a h
+
+/-- **C31, delivered responses are always the expected ones, in request order** (every application, every list of
+requests, **every schedule** of client and server service calls): at every moment the client's response queue is
+`expected q₀, …, expected q_{k-1}` for the first `k` requests — response `i` is attributed to request `i`, carries the
+tag the application gave to request `i` and the body it produced for it; no response is lost, duplicated, reordered
+or mixed with another one. -/
+theorem C31_responses_in_request_order (app : Req → AppResp) (reqs : List Req) (hwf : ∀ q ∈ reqs, WFApp (app q))
+    (sch : List Who) :
+    ∃ k, k ≤ reqs.length ∧ (run app (initSys reqs) sch).c.responses = (reqs.take k).map (expected app) := by
+  obtain ⟨_, k, h1 | ⟨q, h2⟩ | ⟨q, h3⟩⟩ := inv_run app reqs hwf sch _ (inv_init app reqs)
+  · exact ⟨k, h1.1, h1.2.2.2.1⟩
+  · have hk : k < reqs.length := by
+      rcases Nat.lt_or_ge k reqs.length with h | h
+      · exact h
+      · have := h2.1; rw [List.getElem?_eq_none h] at this; cases this
+    exact ⟨k, by omega, h2.2.2.2.2.2.1⟩
+  · have hk : k < reqs.length := by
+      rcases Nat.lt_or_ge k reqs.length with h | h
+      · exact h
+      · have := h3.1; rw [List.getElem?_eq_none h] at this; cases this
+    exact ⟨k, by omega, h3.2.2.2.2.2.1⟩
 
 end Ioflo.KeepAlive
